@@ -107,7 +107,20 @@ pub fn gen_sx(r: &mut Rng, depth: u32, documented: bool) -> (String, String) {
         return atom(r);
     }
     let n = r.below(5) as usize;
-    let items: Vec<(String, String)> = (0..n).map(|_| gen_sx(r, depth + 1, documented)).collect();
+    let mut items: Vec<(String, String)> = (0..n).map(|_| gen_sx(r, depth + 1, documented)).collect();
+    // neighbours that only token adjacency could confuse (the macro sees tokens,
+    // not whitespace): a keyword, then a punctuation symbol, then an identifier
+    if r.chance(1, 6) {
+        let k = *r.pick(IDENTS);
+        let kw = match r.below(3) { 0 => (format!(":{}", k), format!("#:{}", k)), _ => (format!("#:{}", k), format!("#:{}", k)) };
+        let p = *r.pick(&["-", "+", "*", "/", "->", "=", "<", "..", "::", "!", "?", "&", "%"]);
+        let id = *r.pick(IDENTS);
+        let at = r.below(items.len() as u64 + 1) as usize;
+        items.insert(at, (id.to_string(), id.to_string()));
+        items.insert(at, (p.to_string(), p.to_string()));
+        items.insert(at, kw);
+    }
+    let n = items.len();
     let a: Vec<&str> = items.iter().map(|x| x.0.as_str()).collect();
     let b: Vec<&str> = items.iter().map(|x| x.1.as_str()).collect();
     match r.below(4) {
